@@ -111,7 +111,7 @@ def make_case(unit):
     template = TEMPLATES[i % len(TEMPLATES)]
     j = i // len(TEMPLATES)
     wmode = WEIGHTS[j % len(WEIGHTS)]
-    mset = MSETS[(j // len(WEIGHTS)) % len(MSETS)]
+    mset = MSETS[gen.stratum(ID, i, 1, len(MSETS))]
     N = g.pick([5, 8, 12, 20, 30, 45, 60, 3])
     nparts = len(template.split("|"))
     sizes = [g.r.randint(2, 5) for _ in range(nparts)]
